@@ -42,6 +42,10 @@ pub struct Spec {
     /// cooperating connection A must not notice.
     #[serde(default)]
     fault: Option<String>,
+    /// the configured connection timeout is too large for the clock ("no deadline"): the drain is then bounded
+    /// by the clients alone
+    #[serde(default)]
+    no_deadline: bool,
 }
 
 struct InFlight {
@@ -196,7 +200,7 @@ fn run_schedule_once(spec: &Spec) -> Option<Vec<(String, String)>> {
         let mut adapters = NetAdapters::new();
         let gate = Arc::new(Semaphore::new(0));
         adapters.gate = Some(gate.clone());
-        let timeout = if spec.a_stalls { Duration::from_secs(1) } else { Duration::from_secs(30) };
+        let timeout = if spec.no_deadline { Duration::from_secs(u64::MAX) } else if spec.a_stalls { Duration::from_secs(1) } else { Duration::from_secs(30) };
         let cfg = ListenerCfg { timeout, proxy: spec.proxy.then_some((true, true)), ..Default::default() };
         let running = start_listener(&cfg, adapters).await;
         let Some(mut a) = drive_to(running.addr, spec.a, &gate, "127.0.0.2", spec.proxy).await else {
@@ -408,12 +412,12 @@ pub fn run(cli: Cli) -> ! {
     let mut specs = vec![];
     for a in 0..7 {
         for m in 0..3 {
-            specs.push(Spec { a, b: usize::MAX, new_conn_at: m, a_stalls: false, via_start: false, proxy: false, drain_ms: 0, fault: None });
-            specs.push(Spec { a, b: a, new_conn_at: m, a_stalls: false, via_start: false, proxy: false, drain_ms: 0, fault: None });
+            specs.push(Spec { a, b: usize::MAX, new_conn_at: m, a_stalls: false, via_start: false, proxy: false, drain_ms: 0, fault: None, no_deadline: false });
+            specs.push(Spec { a, b: a, new_conn_at: m, a_stalls: false, via_start: false, proxy: false, drain_ms: 0, fault: None, no_deadline: false });
             if thorough {
                 for b in 0..7 {
                     if b != a {
-                        specs.push(Spec { a, b, new_conn_at: m, a_stalls: false, via_start: false, proxy: false, drain_ms: 0, fault: None });
+                        specs.push(Spec { a, b, new_conn_at: m, a_stalls: false, via_start: false, proxy: false, drain_ms: 0, fault: None, no_deadline: false });
                     }
                 }
             }
@@ -421,7 +425,7 @@ pub fn run(cli: Cli) -> ! {
     }
     if !thorough {
         for (a, b) in [(0, 6), (6, 0), (5, 2), (3, 5)] {
-            specs.push(Spec { a, b, new_conn_at: 1, a_stalls: false, via_start: false, proxy: false, drain_ms: 0, fault: None });
+            specs.push(Spec { a, b, new_conn_at: 1, a_stalls: false, via_start: false, proxy: false, drain_ms: 0, fault: None, no_deadline: false });
         }
     }
     // the same placements with PROXY protocol enabled (point 0 = accepted, header still outstanding)
@@ -432,20 +436,24 @@ pub fn run(cli: Cli) -> ! {
         }
     }
     for a in [0, 3, 5] {
-        specs.push(Spec { a, b: usize::MAX, new_conn_at: 0, a_stalls: true, via_start: false, proxy: false, drain_ms: 0, fault: None });
+        specs.push(Spec { a, b: usize::MAX, new_conn_at: 0, a_stalls: true, via_start: false, proxy: false, drain_ms: 0, fault: None, no_deadline: false });
     }
-    specs.push(Spec { a: 0, b: usize::MAX, new_conn_at: 0, a_stalls: true, via_start: false, proxy: true, drain_ms: 0, fault: None });
+    specs.push(Spec { a: 0, b: usize::MAX, new_conn_at: 0, a_stalls: true, via_start: false, proxy: true, drain_ms: 0, fault: None, no_deadline: false });
     for a in [0, 2, 4] {
-        specs.push(Spec { a, b: usize::MAX, new_conn_at: 0, a_stalls: false, via_start: true, proxy: false, drain_ms: 0, fault: None });
+        specs.push(Spec { a, b: usize::MAX, new_conn_at: 0, a_stalls: false, via_start: true, proxy: false, drain_ms: 0, fault: None, no_deadline: false });
+    }
+    // no deadline at all (a timeout the clock cannot represent): stop, drain, return
+    for (a, b) in [(0usize, usize::MAX), (3, usize::MAX), (5, 2)] {
+        specs.push(Spec { a, b, new_conn_at: 1, a_stalls: false, via_start: false, proxy: false, drain_ms: 0, fault: None, no_deadline: true });
     }
     // another in-flight connection comes to a bad end during the drain
     for fault in ["status-backend-panics", "status-backend-fails", "sends-garbage", "hangs-up"] {
         for a in if thorough { vec![0usize, 1, 2, 3, 4, 5] } else { vec![3usize, 5] } {
-            specs.push(Spec { a, b: usize::MAX, new_conn_at: 0, a_stalls: false, via_start: false, proxy: false, drain_ms: 0, fault: Some(fault.into()) });
+            specs.push(Spec { a, b: usize::MAX, new_conn_at: 0, a_stalls: false, via_start: false, proxy: false, drain_ms: 0, fault: Some(fault.into()), no_deadline: false });
         }
     }
     // a drain that lasts longer than any built-in default (10 s): the configured timeout (30 s) is what bounds it
-    specs.push(Spec { a: 5, b: usize::MAX, new_conn_at: 1, a_stalls: false, via_start: false, proxy: false, drain_ms: 11_500, fault: None });
+    specs.push(Spec { a: 5, b: usize::MAX, new_conn_at: 1, a_stalls: false, via_start: false, proxy: false, drain_ms: 11_500, fault: None, no_deadline: false });
     let two = AtomicU64::new(0);
     par_for(specs.len(), |i| {
         // the slow schedules are at the end of the list; start them first
@@ -466,7 +474,7 @@ pub fn run(cli: Cli) -> ! {
     rep.set("evaluations", json!(specs.len()));
     rep.set("distinct_nontrivial", json!(specs.len()));
     rep.set("exhaustive", json!(true));
-    rep.set("rule", json!("placements of one or two in-flight connections over 7 progress points (accepted, handshake sent, login start sent, encryption request received, login success received, waiting for a gated backend, backend done but Transfer unread) x the moment a new connection is attempted (right after the stop, after A finished, after both finished); quick: single connections and equal pairs plus four mixed pairs, thorough: all 49 pairs; three schedules with a non-cooperating client and a 1 s connection timeout; three schedules through passage::start stopped by SIGINT; schedules in which a third in-flight connection ends badly during the drain (its backend panics or fails, it sends garbage, it hangs up) while the cooperating one must still complete. Each schedule is distinct."));
+    rep.set("rule", json!("placements of one or two in-flight connections over 7 progress points (accepted, handshake sent, login start sent, encryption request received, login success received, waiting for a gated backend, backend done but Transfer unread) x the moment a new connection is attempted (right after the stop, after A finished, after both finished); quick: single connections and equal pairs plus four mixed pairs, thorough: all 49 pairs; three schedules with a non-cooperating client and a 1 s connection timeout; three schedules through passage::start stopped by SIGINT; three schedules under a connection timeout too large for the clock; schedules in which a third in-flight connection ends badly during the drain (its backend panics or fails, it sends garbage, it hangs up) while the cooperating one must still complete. Each schedule is distinct."));
     rep.sample(json!({"spec": specs[0]}));
     rep.sample(json!({"spec": specs[specs.len() - 1]}));
     rep.assume("the slow backend is a semaphore the harness opens (no real time); observations are taken at barriers with 2 s deadlines; a connection opened after the stop is 'not served' if it receives no byte within 300 ms");
